@@ -15,7 +15,7 @@ func init() {
 		"(dawg.AnagramSearcher).AllowStep", "(dawg.AnagramSearcher).AllowWord", "(dawg.AnagramSearcher).Chosen"}
 	register(&propDef{
 		id:          "C13",
-		explanation: "Decides the structural part of the last sentence ('a search leaves the Dawg unchanged ...'): PURE ((*Dawg).Search, with Searcher calls resolved by module-restricted CHA to both implementations, writes nothing reachable from the Dawg), SEARCHER-RO (AllowStep, AllowWord and Chosen of both searchers write nothing reachable from the receiver, including through the counts/currPath slices a value receiver still shares), STEP-ONLY (inside Search the only instructions that may write searcher memory are the interface calls Step and Backstep), BALANCE (on every path to a return each searcher has received as many Backstep as Step calls: a local stack is pushed exactly once per complete Step pass over the searchers, popped exactly once per Backstep pass, nothing else changes it, and every return is guarded by its being empty). Does not decide the result set, its order, the ranks, or that Backstep exactly undoes Step.",
+		explanation: "Decides the structural part of the last sentence ('a search leaves the Dawg unchanged ...'): PURE ((*Dawg).Search, with Searcher calls resolved by module-restricted CHA to both implementations, writes nothing reachable from the Dawg), SEARCHER-RO (AllowStep, AllowWord and Chosen of both searchers write nothing reachable from the receiver, including through the counts/currPath slices a value receiver still shares), STEP-ONLY (inside Search the only instructions that may write searcher memory are the interface calls Step and Backstep), BALANCE (on every path to a return each searcher has received as many Backstep as Step calls: a local stack is pushed exactly once per complete Step pass over the searchers, popped exactly once per Backstep pass, nothing else changes it, and every return is guarded by its being empty); NARROW and MASKWIDTH (narrowing integer conversions, and the shift counts of one-bit masks indexed by a position, are proved to fit: a 64-bit mask of blank positions forgets position 64). Does not decide the result set, its order, the ranks, or that Backstep exactly undoes Step.",
 		notDecided:  []string{"that Search returns exactly the matching words in lexicographic order with correct ranks", "that Backstep restores exactly what Step changed (letter accounting)", "that Backstep exactly undoes one Step (BALANCE only counts calls)"},
 		assumptions: []string{"searchers passed to Search are the module's PatternSearcher/AnagramSearcher (closed world); a user-defined Searcher is outside the claim"},
 		run: func(c *Ctx, tier string) []*RuleResult {
@@ -31,7 +31,8 @@ func init() {
 			bal := &RuleResult{Rule: "BALANCE", Doc: "every searcher receives exactly as many Backstep as Step calls on every path to a return: a local stack is pushed once per Step pass, popped once per Backstep pass, and every return is guarded by the stack being empty", MinInst: 3}
 			ruleBalance(c, bal, "(*dawg.Dawg).Search", "Step", "Backstep")
 			nw := ruleNarrow(c, inFiles("dawg_search.go"))
-			return []*RuleResult{pure, ro, so, bal, nw}
+			mw := ruleMaskWidth(c, inFiles("dawg_search.go"))
+			return []*RuleResult{pure, ro, so, bal, nw, mw}
 		},
 		controls: func(ctl *Ctx) []*RuleResult {
 			ro := &RuleResult{Rule: "SEARCHER-RO"}
@@ -51,7 +52,8 @@ func init() {
 			}
 			bal.Undecided = append(bal.Undecided, good.Undecided...)
 			nw := ruleNarrow(ctl, inFiles("balctl.go"))
-			return []*RuleResult{ro, so, bal, nw}
+			mw := ruleMaskWidth(ctl, inFiles("balctl.go"))
+			return []*RuleResult{ro, so, bal, nw, mw}
 		},
 	})
 }
@@ -846,5 +848,51 @@ func ruleNarrow(c *Ctx, files func(string) bool) *RuleResult {
 	if n == 0 {
 		r.undecided("no search function found")
 	}
+	return r
+}
+
+// ruleMaskWidth: `1 << x` is 0 in Go once x reaches the width of the type - no panic, no wrap-around.
+// A position, length or element number used as the shift count of a one-bit mask must therefore be
+// proved to stay below the width (a 64-bit mask of "blank positions" silently forgets position 64).
+func ruleMaskWidth(c *Ctx, files func(string) bool) *RuleResult {
+	r := &RuleResult{Rule: "MASKWIDTH", Doc: "a constant shifted left by a variable count (a bit mask indexed by a position) has its count proved below the width of the type: Go yields 0 beyond it", MinInst: 0}
+	n := 0
+	for _, fn := range c.Funcs {
+		if fn.Synthetic != "" || fn.Blocks == nil || !files(c.Fset.Position(fn.Pos()).Filename) {
+			continue
+		}
+		n++
+		var P *Prover
+		for _, b := range fn.Blocks {
+			for _, in := range b.Instrs {
+				sh, ok := in.(*ssa.BinOp)
+				if !ok || sh.Op != token.SHL || !isInt(sh.Type()) {
+					continue
+				}
+				if k, isK := constInt(sh.X); !isK || k == 0 {
+					continue
+				}
+				if _, isK := constInt(sh.Y); isK {
+					continue
+				}
+				if P == nil {
+					P = NewProver(c, fn)
+				}
+				w := int64(intBits(sh.Type()))
+				cnt := P.poly(sh.Y)
+				src := c.srcAt(sh.Pos())
+				if src == "" {
+					src = valName(sh)
+				}
+				r.inst("%s: mask %s (%d bits)", c.short(fn), src, w)
+				ok2 := P.Prove(cnt.add(constP(-(w-1)), 1), b)
+				r.oblig(ok2)
+				if !ok2 {
+					r.find(c.short(fn)+":mask "+src, c.instrPos(sh), "%s builds a one-bit mask by shifting a constant left by %s, which is not proved to stay below %d: from position %d on the mask is 0 and the position is silently dropped", c.short(fn), P.showTerm(cnt), w, w)
+				}
+			}
+		}
+	}
+	r.inst("%d functions scanned for position-indexed masks", n)
 	return r
 }
